@@ -25,7 +25,9 @@ unit_floats = st.floats(-1.0, 1.0, allow_nan=False, allow_infinity=False, allow_
 
 
 def floats_in(lo, hi):
-    return st.floats(lo, hi, allow_nan=False, allow_infinity=False, allow_subnormal=False)
+    # values within 1e-300 of zero are flushed to zero: the properties speak of coordinate magnitudes 1e-3..1e6, and numpy's
+    # root finder overflows on 1/x for such x (the shrinker would otherwise steer every failure there)
+    return st.floats(lo, hi, allow_nan=False, allow_infinity=False, allow_subnormal=False).map(lambda v: 0.0 if abs(v) < 1e-300 else v)
 
 
 def coord(scale=1.0, wide=False):
